@@ -197,6 +197,12 @@ def r2_isa_offsets(ctx):
     for modname, qual in (('x12n_document', 'x12n_document'), ('x12context', 'X12ContextReader.__init__')):
         f2 = ctx.func(modname, qual)
         lits = {s.value for s in ast.walk(f2) if A.is_str(s) and s.value.startswith('x12.control.')}
+        # (a table of control maps kept in a module-level constant the function reads)
+        modc2 = A.module_constants(ctx.mod(modname).tree)
+        for nm_ in {x.id for x in ast.walk(f2) if isinstance(x, ast.Name) and x.id in modc2}:
+            v_ = modc2[nm_]
+            vals_ = list(v_.values()) if isinstance(v_, dict) else (list(v_) if isinstance(v_, (tuple, frozenset)) else [v_])
+            lits |= {x for x in vals_ if isinstance(x, str) and x.startswith('x12.control.')}
         vers = {x[len('x12.control.'):-4] for x in lits}
         ok = vers == wl
         yield Ob('%s:%s selects a control map for every whitelisted version' % (modname, qual), ok, ctx.floc(f2),
